@@ -1,5 +1,5 @@
 (* C05 — snapshots, read transactions and iterators are frozen in time.  Only property theorems. *)
-From FJ Require Import Bytes Codec Lsm Tracker Db LsmP TrackerP DbP.
+From FJ Require Import Bytes Codec Reader Lsm Tracker Db LsmP TrackerP DbP DbOrderP RefineP FrozenP.
 
 (* 1. the snapshot tracker, for EVERY sequence of open / clone / close / publish / gc / pullup
       (each nonce closed once): the open-snapshot table counts the live holders, the GC watermark stays
@@ -36,6 +36,30 @@ Theorem C05_select_defined : forall (t : tree) (I : N),
   vers t <> nil -> (I = 0 \/ exists v, In v (vers t) /\ v_seq v < I) -> select_version t I <> None.
 Proof. exact select_some. Qed.
 
+(* 5. the composition, at the level of the database model: a view whose instant is registered in the snapshot tracker reads the
+      same — point reads and scans, through the version selection, in every keyspace that exists — after EVERY operation
+      (keyspace creation, writes, batches = transaction commits, clears, ingestion, rotation with its tracker GC and
+      version-history maintenance, worker steps, drains, major compaction with any filter) ... *)
+Theorem C05_live_view_frozen_by_every_operation : forall (d : db) (o : wop) (live : list N) (i : N),
+  DInv d -> UQ d -> VInv d live -> In i live ->
+  forall id k, kfind (d_kss d) id <> None -> vreads i (d_kss (wstep d o)) id k = vreads i (d_kss d) id k.
+Proof. exact wstep_frozen. Qed.
+
+(*    ... the tracker invariant survives every operation ... *)
+Theorem C05_tracker_invariant_kept : forall (d : db) (o : wop) (live : list N), VInv d live -> VInv (wstep d o) live.
+Proof. exact wstep_VInv. Qed.
+
+(*    ... hence: a snapshot opened after ANY program, then ANY program: it still reads what it read when it was opened *)
+Theorem C05_snapshot_frozen : forall mode filters (p1 p2 : list wop) (id : N) (k : bytes),
+  let d1 := fold_left wstep p1 (db_init mode filters) in
+  let i := visible (d_trk d1) in
+  let d2 := fold_left wstep p2 (open_view d1) in
+  kfind (d_kss d1) id <> None -> vreads i (d_kss d2) id k = vreads i (d_kss d1) id k.
+Proof. exact snapshot_frozen. Qed.
+
+Print Assumptions C05_live_view_frozen_by_every_operation.
+Print Assumptions C05_tracker_invariant_kept.
+Print Assumptions C05_snapshot_frozen.
 Print Assumptions C05_tracker_invariants.
 Print Assumptions C05_reads_frozen.
 Print Assumptions C05_fjall_parameters_ok.
